@@ -325,4 +325,74 @@ theorem bmm_lab {sz : Ix → Nat} {aT bT out : List Ix} (lc : Bool) (hout : out.
     hab1]
   exact hr
 
+
+/-- `out_produced = singletons + bat + a_keep + b_keep` lists every output label exactly once -/
+theorem produced_spec {sz : Ix → Nat} {aT bT out : List Ix} (hout : out.Nodup)
+    (hsub : ∀ o ∈ out, o ∈ aT ∨ o ∈ bT) :
+    (∀ i, i ∈ out.filter (has (singlesSet aT (aT.map sz) bT (bT.map sz))) ++
+        (groups aT (aT.map sz) bT (bT.map sz) out).bat ++
+        (groups aT (aT.map sz) bT (bT.map sz) out).aKeep ++
+        (groups aT (aT.map sz) bT (bT.map sz) out).bKeep ↔ i ∈ out) ∧
+    (out.filter (has (singlesSet aT (aT.map sz) bT (bT.map sz))) ++
+        (groups aT (aT.map sz) bT (bT.map sz) out).bat ++
+        (groups aT (aT.map sz) bT (bT.map sz) out).aKeep ++
+        (groups aT (aT.map sz) bT (bT.map sz) out).bKeep).Nodup := by
+  have hbat := fun i => @mem_bat sz aT bT out i
+  have hak := fun i => @mem_aKeep sz aT bT out i
+  have hbk := fun i => @mem_bKeep sz aT bT out i
+  obtain ⟨hn1, _, hn3, hn4⟩ := nodup_groups (sz := sz) (aT := aT) (bT := bT) (out := out)
+  have hsing : ∀ i, i ∈ out.filter (has (singlesSet aT (aT.map sz) bT (bT.map sz)))
+      ↔ i ∈ out ∧ (i ∈ aT ∨ i ∈ bT) ∧ sz i = 1 := by
+    intro i
+    simp only [List.mem_filter, has, List.contains_iff_mem, mem_singlesSet]
+  have hsingn : (out.filter (has (singlesSet aT (aT.map sz) bT (bT.map sz)))).Nodup :=
+    hout.filter _
+  generalize hG : groups aT (aT.map sz) bT (bT.map sz) out = G at *
+  obtain ⟨bat, con, aKeep, bKeep⟩ := G
+  simp only at hbat hak hbk hn1 hn3 hn4 ⊢
+  generalize hS : out.filter (has (singlesSet aT (aT.map sz) bT (bT.map sz))) = singles at *
+  have hprod_assoc : singles ++ bat ++ aKeep ++ bKeep = singles ++ (bat ++ aKeep ++ bKeep) := by
+    simp [List.append_assoc]
+  constructor
+  · intro i
+    simp only [List.mem_append, hsing, hbat, hak, hbk]
+    constructor
+    · rintro (((h | h) | h) | h)
+      · exact h.1
+      · exact h.2.2
+      · exact h.2.2
+      · exact h.2.2
+    · intro ho
+      by_cases h1 : sz i = 1
+      · exact Or.inl (Or.inl (Or.inl ⟨ho, hsub i ho, h1⟩))
+      · by_cases ha : i ∈ aT
+        · by_cases hb : i ∈ bT
+          · exact Or.inl (Or.inl (Or.inr ⟨⟨ha, h1⟩, hb, ho⟩))
+          · exact Or.inl (Or.inr ⟨⟨ha, h1⟩, hb, ho⟩)
+        · have hb : i ∈ bT := (hsub i ho).resolve_left ha
+          exact Or.inr ⟨⟨hb, h1⟩, ha, ho⟩
+  · rw [hprod_assoc]
+    refine List.nodup_append.2 ⟨hsingn, ?_, ?_⟩
+    · apply nodup_append3 hn1 hn3 hn4
+      · intro i h1 h2; exact ((hak i).1 h2).2.1 ((hbat i).1 h1).2.1
+      · intro i h1 h2; exact ((hbk i).1 h2).2.1 ((hbat i).1 h1).1.1
+      · intro i h1 h2; exact ((hbk i).1 h2).2.1 ((hak i).1 h1).1.1
+    · intro x hx y hy hxy
+      subst hxy
+      have h1 := ((hsing x).1 hx).2.2
+      simp only [List.mem_append, hbat, hak, hbk] at hy
+      rcases hy with (h | h) | h
+      · exact h.1.2 h1
+      · exact h.1.2 h1
+      · exact h.1.2 h1
+
+theorem isPermOf_map_idxOf {t out : List Ix} (ht : t.Nodup) (ho : out.Nodup)
+    (h1 : ∀ o ∈ out, o ∈ t) (h2 : ∀ i ∈ t, i ∈ out) :
+    isPermOf (out.map t.idxOf) t.length = true := by
+  have hperm : out.Perm t := (List.perm_ext_iff_of_nodup ho ht).2 fun a => ⟨h1 a, h2 a⟩
+  simp only [isPermOf, List.length_map, hperm.length_eq, beq_self_eq_true, Bool.true_and,
+    List.all_eq_true, List.mem_range, List.contains_iff_mem, List.mem_map]
+  intro j hj
+  exact ⟨t[j], h2 _ (List.getElem_mem hj), idxOf_getElem_nodup ht hj⟩
+
 end Cotengra.Bmm
